@@ -175,6 +175,11 @@ func Fill(r *rand.Rand, v reflect.Value, p *Profile, path string, isOptional boo
 			v.Set(reflect.ValueOf(randTime(r, p)))
 			return
 		}
+		if isOptional && p.null(r, path) {
+			// the zero struct is the null of an optional non-pointer struct field
+			v.Set(reflect.Zero(t))
+			return
+		}
 		saved := p.hint
 		for i := 0; i < t.NumField(); i++ {
 			tag := t.Field(i).Tag.Get("parquet")
